@@ -225,6 +225,18 @@ func DHCP(r *rand.Rand, e Env, kind string, mac refdec.MAC) refdec.DHCPMsg {
 	if r.Intn(4) == 0 {
 		m.Flags |= 0x8000
 	}
+	if r.Intn(10) == 0 {
+		// options as long as the one byte length allows: vendor information, class identifiers, a long request list and an
+		// (unusual, legal) zero length client identifier
+		for _, c := range []byte{43, 60, 77, 55} {
+			if r.Intn(2) == 0 {
+				opt(c, RandBytes(r, 200+r.Intn(56))...)
+			}
+		}
+		if r.Intn(4) == 0 {
+			opt(61)
+		}
+	}
 	return m
 }
 
@@ -616,6 +628,20 @@ func LLDP(r *rand.Rand) []byte {
 	tlv := func(t int, v []byte) {
 		b = append(b, byte(t<<1)|byte(len(v)>>8&1), byte(len(v)))
 		b = append(b, v...)
+	}
+	if r.Intn(8) == 0 {
+		// as large as the 9 bit TLV length field allows: identifiers of up to 511 bytes, long names and descriptions
+		tlv(1, append([]byte{7}, RandBytes(r, []int{254, 400, 510}[r.Intn(3)])...))
+		tlv(2, append([]byte{7}, RandBytes(r, []int{254, 400, 510}[r.Intn(3)])...))
+		tlv(3, []byte{0, 120})
+		for k := r.Intn(4); k > 0; k-- {
+			tlv(5+r.Intn(2), []byte(strings.Repeat("n", 1+r.Intn(300))))
+		}
+		if r.Intn(2) == 0 {
+			tlv(7, []byte{0, 0x14, 0, 0x04})
+		}
+		tlv(0, nil)
+		return b
 	}
 	tlv(1, append([]byte{4}, RandBytes(r, 6)...))
 	tlv(2, append([]byte{3}, RandBytes(r, 6)...))
